@@ -8,8 +8,9 @@ Obligations (all CBMC on the real mir.c, state constructed directly):
   hist1.<shapes>.sN       one name: the three modules have the given shapes for name y (x unused); EVERY history of N steps
                           over {load M1|M2|M3, load_external y, link, link with resolver}
   hist2.<cfg>.sN          two names: shapes of x and y in M1.M2.M3 = <cfg>; EVERY history of N steps over all 7 step kinds
-  full.<cfg>.sN           as hist2, without the exclusion described under 'assumptions'
-  redef.func-after-*      that excluded case as one concrete history each
+  full.<cfg>.sN           regression: a configuration in which a function is loaded over exported data / an external of the same name
+  redef.func-after-*      regression (fixed in /repo b052695f): the FIRST exported function of a name that is already an external
+                          or exported data is accepted; one concrete history each
 hist*/full* are explored with `cbmc --paths` (one symbolic-execution path per history); configurations with an exported function
 are run once with the redefinition permission off (.p0) and once with it on (.p1).
 """
@@ -75,14 +76,11 @@ def hist_ob(name, c, nsteps, ops, exclude, timeout):
     for perm in ((0, 1) if F in c else (0,)):
         loops, defs = common(c, nsteps)
         defs += ["H_NO_WITNESS", "H_OPS=" + ",".join(str(o) for o in ops), "H_NOPS=%d" % len(ops), "H_PERM=%d" % perm]
-        if exclude:
-            defs.append("H_FUNC_OVER_NONFUNC=0")
         desc = "M1(x:%s y:%s) M2(x:%s y:%s) M3(x:%s y:%s)" % tuple(SHAPE[v] for v in c)
         res.append(Ob(name + (".p%d" % perm if F in c else ""), "C13/link_hist.c", defs=defs, loops=loops, unwind=2, paths=True, object_bits=12,
                       timeout=timeout, flags=FS_FLAGS,
-                      sample="%s; redefinition permission %s; every history of %d steps over %d step kinds (%d histories)%s" %
-                             (desc, "on" if perm else "off", nsteps, len(ops), len(ops) ** nsteps,
-                              "; loads of a function over a non-function definition excluded" if exclude else "")))
+                      sample="%s; redefinition permission %s; every history of %d steps over %d step kinds (%d histories)" %
+                             (desc, "on" if perm else "off", nsteps, len(ops), len(ops) ** nsteps)))
     return res
 
 
@@ -161,10 +159,12 @@ def obligations(tier):
         pin_ob("pin.forward-local", (W, I, F, 0, 0, 0), 0, [LOAD2, LOAD1, EXT_Y, LINK], ["EXT", "END"],
                "M1 has a forward-declared LOCAL func x and imports y; M2 exports func x: M1's forward resolves to its own x"),
     ]
-    # ---- the excluded case, as concrete histories (see 'assumptions')
+    # ---- regression (was a defect, fixed in /repo b052695f): first exported function after an external / data of the same name
     obs += [
         pin_ob("redef.func-after-external", (F, 0, 0, 0, 0, 0), 0, [EXT_X, LOAD1], ["END"],
                "permission off; load_external x; load M1 (exports func x): the FIRST exported function x must be accepted"),
+        pin_ob("redef.func-after-external-rebind", (F, 0, I, 0, 0, 0), 0, [EXT_X, LOAD1, LOAD2, LINK], ["NEWER", "END"],
+               "permission off; load_external x; load M1 (exports func x); load M2 (imports x); link -> bound to M1's function, not the external"),
         pin_ob("redef.func-after-data", (F, 0, D, 0, 0, 0), 0, [LOAD2, LOAD1], ["END"],
                "permission off; load M2 (exports data x); load M1 (exports func x): the FIRST exported function x must be accepted"),
     ]
@@ -230,10 +230,8 @@ META = {
         "exported definition or external registration of a name REPLACES the earlier one for all later link steps, silently for data; modules linked "
         "before keep the address they were bound to (their ref_def points to the shared environment entry, which is updated in place). For functions "
         "MIR_load_module additionally rejects the load with MIR_repeated_decl_error when the name is already defined by an exported MIR FUNCTION and "
-        "redefinition permission is off. Loading the same module again counts as loading its definitions again",
-        "hist1/hist2 obligations EXCLUDE histories in which (permission off) an exported function is loaded while the name is defined by an external "
-        "address or by exported data: the implementation rejects these loads as redefinitions although no function is redefined (redef.* and full.* "
-        "obligations keep that case and report it)",
+        "redefinition permission is off (a function loaded over an external address or exported data of the name is the first exported function: accepted). "
+        "Loading the same module again counts as loading its definitions again",
         "MIR_change_module_ctx, expr/ref/lref data, import of a name defined in the same module (rejected by add_item: additem.*) are out of scope here",
     ],
     "functions_encoded": ["MIR_load_module", "load_bss_data_section", "setup_global", "new_export_import_forward", "create_item", "get_ctx_str",
